@@ -289,38 +289,67 @@ Proof.
     + right. exists "x0", "x6". do 2 eexists. split; [reflexivity|]. split; [apply (far_hi L AStr "x6")|apply (far_lo L AStr "x0" "x6")].
 Qed.
 
+(* ---- EXPLICITLY written compressed transfers `c.j L`, `c.jal L`, `c.beqz rs, L`, `c.bnez rs, L`: compressed in both modes ------------- *)
+Inductive xferC (L : string) : string -> item -> Prop :=
+| xc_cb m name a : In (m, name) [("beq", "c.beqz"); ("bne", "c.bnez")] ->
+    xferC L m (IInstr "CBTypeInstruction" name [("rs1", FReg a); ("imm", FExpr (EOff L))] true)
+| xc_cj name : In name ["c.j"; "c.jal"] ->
+    xferC L "jal" (IInstr "CJTypeInstruction" name [("imm", FExpr (EOff L))] true).
+Lemma xferC_I L m it : xferC L m it -> xferI L true m it.
+Proof. intro H; destruct H; constructor; auto. Qed.
+Lemma xferC_alias consts L m it : xferC L m it -> xferC L m (alias_item consts it).
+Proof.
+  intro H. destruct H as [m name a Hn|name Hn]; cbn [alias_item map].
+  - destruct (alias_reg consts "rs1" a eq_refl) as [a' ->].
+    change (alias_field consts ("imm", FExpr (EOff L))) with ("imm", FExpr (EOff L)). constructor; auto.
+  - change (alias_field consts ("imm", FExpr (EOff L))) with ("imm", FExpr (EOff L)). constructor; auto.
+Qed.
+Lemma xferC_compress consts l p ls L m it rs : xferC L m it -> compress_rule consts l it p ls = Done rs -> rs = [it].
+Proof.
+  intros Hx Hr. destruct Hx as [m name a Hn|name Hn]; cbv beta iota delta [compress_rule] in Hr.
+  - rewrite (imm_unstable_c l p consts "CBTypeInstruction" [("rs1", FReg a); ("imm", FExpr (EOff L))] L eq_refl eq_refl) in Hr. cbn [obind] in Hr.
+    inversion Hr; reflexivity.
+  - rewrite (imm_unstable_c l p consts "CJTypeInstruction" [("imm", FExpr (EOff L))] L eq_refl eq_refl) in Hr. cbn [obind] in Hr.
+    inversion Hr; reflexivity.
+Qed.
+Lemma xferC_pseudo consts l p ls L m it rs : xferC L m it -> pseudo_rule consts l it p ls = Done rs -> rs = [it].
+Proof. intros Hx Hr. destruct Hx; inversion Hr; reflexivity. Qed.
+
 (* ---- the families that are followed, under one index type ------------------------------------------------------------------------- *)
-Inductive idx := IT (L m : string) | IC (L : string) | IF (L : string) (r : farrole).
+Inductive idx := IT (L m : string) | IX (L m : string) | IC (L : string) | IF (L : string) (r : farrole).
+Definition single_idx (i : idx) : Prop := match i with IT _ _ | IX _ _ => True | _ => False end.
 Definition P23 (cmp : bool) (i : idx) (it : item) : Prop :=        (* in front of the pseudo-instruction pass *)
-  match i with IT L m => xfer L cmp m it | IC L => xcall L it | IF _ _ => False end.
+  match i with IT L m => xfer L cmp m it | IX L m => xferC L m it | IC L => xcall L it | IF _ _ => False end.
 Definition Q4 (cmp : bool) (ra : string -> arg) (i : idx) (it : item) : Prop :=   (* behind it *)
-  match i with IT L m => xferI L cmp m it | IC _ => False | IF L r => farI L ra r it end.
+  match i with IT L m => xferI L cmp m it | IX L m => xferC L m it | IC _ => False | IF L r => farI L ra r it end.
 
 Lemma P23_alias consts cmp i it : P23 cmp i it -> P23 cmp i (alias_item consts it).
 Proof.
-  destruct i as [L m|L|L r]; cbn [P23]; auto. apply xfer_alias.
+  destruct i as [L m|L m|L|L r]; cbn [P23]; auto. apply xfer_alias. apply xferC_alias.
   intros (name & pimm & Hn & ->). exists name, pimm. auto.
 Qed.
 Lemma P23_compress consts l p ls i it rs :
   P23 true i it -> compress_rule consts l it p ls = Done rs -> exists it', rs = [it'] /\ P23 true i it'.
 Proof.
-  destruct i as [L m|L|L r]; cbn [P23]; try contradiction. apply xfer_compress.
-  intros (name & pimm & Hn & ->) Hr. inversion Hr; subst. eexists; split; [reflexivity|]. exists name, pimm. auto.
+  destruct i as [L m|L m|L|L r]; cbn [P23]; try contradiction. apply xfer_compress.
+  - intros H Hr. rewrite (xferC_compress _ _ _ _ _ _ _ _ H Hr). eauto.
+  - intros (name & pimm & Hn & ->) Hr. inversion Hr; subst. eexists; split; [reflexivity|]. exists name, pimm. auto.
 Qed.
 Lemma P23_label cmp i n : ~ P23 cmp i (ILabel n).
 Proof.
-  destruct i as [L m|L|L r]; cbn [P23]; auto. apply xfer_label. intros (name & pimm & _ & E). discriminate.
+  destruct i as [L m|L m|L|L r]; cbn [P23]; auto. apply xfer_label. intro H; inversion H. intros (name & pimm & _ & E). discriminate.
 Qed.
 Lemma Q4_alias consts cmp i it : Q4 cmp AStr i it -> Q4 cmp (alias_arg consts) i (alias_item consts it).
-Proof. destruct i as [L m|L|L r]; cbn [Q4]; auto. apply xferI_alias. apply farI_alias. Qed.
+Proof. destruct i as [L m|L m|L|L r]; cbn [Q4]; auto. apply xferI_alias. apply xferC_alias. apply farI_alias. Qed.
 Lemma Q4_compress consts ra l p ls i it rs :
   Q4 true ra i it -> compress_rule consts l it p ls = Done rs -> exists it', rs = [it'] /\ Q4 true ra i it'.
 Proof.
-  destruct i as [L m|L|L r]; cbn [Q4]; try contradiction. apply xferI_compress.
-  intros H Hr. rewrite (farI_compress _ _ _ _ _ _ _ _ _ H Hr). eauto.
+  destruct i as [L m|L m|L|L r]; cbn [Q4]; try contradiction. apply xferI_compress.
+  - intros H Hr. rewrite (xferC_compress _ _ _ _ _ _ _ _ H Hr). eauto.
+  - intros H Hr. rewrite (farI_compress _ _ _ _ _ _ _ _ _ H Hr). eauto.
 Qed.
 Lemma Q4_label cmp ra i n : ~ Q4 cmp ra i (ILabel n).
-Proof. destruct i as [L m|L|L r]; cbn [Q4]; auto. apply xferI_label. intro H; inversion H. Qed.
+Proof. destruct i as [L m|L m|L|L r]; cbn [Q4]; auto. apply xferI_label. intro H; inversion H. intro H; inversion H. Qed.
 
 (* ---- the tracking relation of one stage --------------------------------------------------------------------------------- *)
 Definition fam := idx -> item -> Prop.
@@ -404,7 +433,7 @@ Qed.
    item; call / tail is the one-instruction form or the pair *)
 Definition R4 (cmp : bool) (Q : fam) (x : litem) (g : list litem) : Prop :=
   Rkeep x g /\ (codelike (snd x) -> instrs g) /\
-  (forall L m, P23 cmp (IT L m) (snd x) -> exists it', g = [(fst x, it')] /\ Q (IT L m) it') /\
+  (forall i, single_idx i -> P23 cmp i (snd x) -> exists it', g = [(fst x, it')] /\ Q i it') /\
   (forall L, P23 cmp (IC L) (snd x) ->
      (exists it', g = [(fst x, it')] /\ Q (IT L "jal") it') \/
      (exists d s i1 i2, g = [(fst x, i1); (fst x, i2)] /\ Q (IF L (FHi s)) i1 /\ Q (IF L (FLo d s)) i2)).
@@ -417,14 +446,16 @@ Proof.
   destruct x as [l it]. unfold pass_group in H. cbn [fst snd] in *. destruct (is_label it) as [n|] eqn:El.
   - split; [|split].
     + rewrite (is_label_inv _ _ El). intros [].
-    + intros L m HPL. rewrite (is_label_inv _ _ El) in HPL. destruct (xfer_label _ _ _ _ HPL).
+    + intros i _ HPL. rewrite (is_label_inv _ _ El) in HPL. destruct (P23_label cmp i n HPL).
     + intros L HPL. rewrite (is_label_inv _ _ El) in HPL. destruct (P23_label cmp (IC L) n HPL).
   - destruct H as (ls0 & rs & Hr & ->). split; [|split].
     + intro Hc. pose proof (pseudo_rule_keep _ _ _ _ _ _ Hr) as Hk. apply instrs_map.
       destruct it; try contradiction.
       * subst rs. repeat constructor.
       * eapply Forall_impl; [|exact Hk]. intros a Ha. apply plain_instr; exact Ha.
-    + intros L m HPL. destruct (xfer_pseudo _ _ _ _ _ _ _ _ _ HPL Hr) as (it' & -> & H'). simpl. eauto.
+    + intros i Hs HPL. destruct i as [L m|L m|L|L r]; try contradiction; cbn [P23 Q4] in *.
+      * destruct (xfer_pseudo _ _ _ _ _ _ _ _ _ HPL Hr) as (it' & -> & H'). simpl. eauto.
+      * rewrite (xferC_pseudo _ _ _ _ _ _ _ _ HPL Hr). simpl. eauto.
     + intros L HPL. destruct (xcall_pseudo consts l p ls0 L cmp it rs HPL Hr) as [(it' & -> & H')|(d & s & i1 & i2 & -> & H1 & H2)].
       * left. simpl. eauto.
       * right. exists d, s, i1, i2. simpl. auto.
@@ -445,8 +476,8 @@ Proof.
   intros (K & _ & T) G. split; [|split; [|split]].
   - eapply Rkeep_comp; [exact K|]. eapply grouped_impl; [|exact G]. intros y k [A _]; exact A.
   - intro Hc. eapply grouped_code_instrs; [|exact (Rkeep_code _ _ Hc K)|exact G]. intros y k (_ & A & _). exact A.
-  - intros L m HP. destruct (T _ HP) as (it' & -> & HQ). apply grouped_single in G. destruct G as (_ & _ & T1 & _).
-    exact (T1 L m HQ).
+  - intros i Hs HP. destruct (T _ HP) as (it' & -> & HQ). apply grouped_single in G. destruct G as (_ & _ & T1 & _).
+    exact (T1 i Hs HQ).
   - intros L HP. destruct (T _ HP) as (it' & -> & HQ). apply grouped_single in G. destruct G as (_ & _ & _ & T2).
     exact (T2 L HQ).
 Qed.
@@ -455,7 +486,7 @@ Proof.
   intros (K & I1 & T1 & T2) G. split; [|split; [|split]].
   - eapply Rkeep_comp; [exact K|]. eapply grouped_impl; [|exact G]. intros y k [A _]; exact A.
   - intro Hc. eapply grouped_instrs; [|exact (I1 Hc)|exact G]. intros y k (_ & A & _). exact A.
-  - intros L m HP. destruct (T1 L m HP) as (it' & -> & HQ). apply grouped_single in G. destruct G as (_ & _ & T').
+  - intros i Hs HP. destruct (T1 i Hs HP) as (it' & -> & HQ). apply grouped_single in G. destruct G as (_ & _ & T').
     destruct (T' _ HQ) as (it'' & -> & HQ'). eauto.
   - intros L HP. destruct (T2 L HP) as [(it' & -> & HQ)|(d & s & i1 & i2 & -> & H1 & H2)].
     + apply grouped_single in G. destruct G as (_ & _ & T'). destruct (T' _ HQ) as (it'' & -> & HQ'). left. eauto.
